@@ -293,13 +293,10 @@ func runC15(ctx *core.Ctx) {
 		} else {
 			c := calls[0]
 			arch := c.Call.Args[0]
-			_, leaves := phiWeb(arch)
-			if len(leaves) == 0 {
-				leaves = []leaf{{Val: arch}}
-			}
+			// the values the archive can have where Write is called (a nil placeholder merged in on
+			// an error path that never reaches the call does not count)
 			okSrc := true
-			for _, l := range leaves {
-				v := l.Val
+			for _, v := range mg.ResolveAll(arch, c) {
 				if e, ok := v.(*ssa.Extract); ok {
 					v = e.Tuple
 				}
@@ -552,41 +549,7 @@ func isByteSlice(t interface{ String() string }) bool { return t.String() == "[]
 
 // variadicElems returns the values stored into the backing array of a
 // variadic argument slice (slice t[:] of new [n]T), in index order.
-func variadicElems(v ssa.Value) []ssa.Value {
-	sl, ok := v.(*ssa.Slice)
-	if !ok {
-		return nil
-	}
-	al, ok := sl.X.(*ssa.Alloc)
-	if !ok {
-		return nil
-	}
-	elems := map[int64]ssa.Value{}
-	max := int64(-1)
-	for _, r := range ssax.Referrers(al) {
-		ia, ok := r.(*ssa.IndexAddr)
-		if !ok {
-			continue
-		}
-		idx, ok := ssax.ConstInt(ia.Index)
-		if !ok {
-			return nil
-		}
-		for _, rr := range ssax.Referrers(ia) {
-			if st, ok := rr.(*ssa.Store); ok && st.Addr == ia {
-				elems[idx] = st.Val
-				if idx > max {
-					max = idx
-				}
-			}
-		}
-	}
-	var out []ssa.Value
-	for i := int64(0); i <= max; i++ {
-		out = append(out, elems[i])
-	}
-	return out
-}
+func variadicElems(v ssa.Value) []ssa.Value { return ssax.VariadicElems(v) }
 
 // impliesIsAbs: the module function returns true whenever its argument is
 // absolute or rooted: its result is a disjunction containing filepath.IsAbs(p)
